@@ -403,6 +403,15 @@ func RunWith(t *testing.T, c Case, st *Stores) *Result {
 					continue
 				}
 				if m := sentFor[l.c]; len(m) > 0 && !m[l.i] {
+					sameScope := false
+					for j := range m {
+						if c.Reqs[j].DedupKey == c.Reqs[l.i].DedupKey {
+							sameScope = true
+						}
+					}
+					if !sameScope {
+						continue // withheld although never sent in this request's scope: not the known class
+					}
 					res.CrossDedup[l.i] = true
 					if !storeOf(l.i).Has(l.c) {
 						res.AtRisk[l.i] = true
